@@ -7,7 +7,10 @@ use generic_array::GenericArray;
 use super::model::*;
 use super::vk::*;
 use crate::opaque::{bytestrings_from_identifiers, Identifiers};
-use crate::serialization::{i2osp, Input};
+use crate::serialization::{i2osp, Input, MacExt, UpdateExt};
+use digest::Digest;
+use hmac::{Hmac, Mac};
+use super::spec_prims as sp;
 
 static BIG: [u8; 131073] = [0u8; 131073];
 
@@ -125,5 +128,29 @@ harnesses! {
             }
             Err(_) => { check!(!(c_ok && s_ok), "every encodable pair of identities is accepted"); cover!(true, "refused"); }
         }
+    }
+
+    /// MacExt::update_iter absorbs every part completely and in order, also when one part is much longer than a hash
+    /// block (130 bytes) or when parts are empty: MAC == RFC 2104 HMAC of the concatenation
+    fn s12_mac_update_iter_long [unwind = 140] {
+        let key = any_bytes::<8>();
+        let a = any_bytes::<2>();
+        let b = any_bytes::<130>();
+        let c = any_bytes::<3>();
+        let mut m = Hmac::<MHash>::new_from_slice(&key).unwrap();
+        m.update_iter([&a[..], &b[..], &c[..0], &c[..]].into_iter());
+        let got = m.finalize().into_bytes();
+        check!(eq_bytes(&got, &sp::hmac(&key, &[&a, &b, &c])), "update_iter == MAC over the concatenation of all parts");
+        cover!(true, "reached");
+    }
+
+    /// UpdateExt::chain_iter absorbs every part completely and in order (one 70-byte part, one empty part)
+    fn s12_digest_chain_iter_long [unwind = 80] {
+        let a = any_bytes::<3>();
+        let b = any_bytes::<70>();
+        let c = any_bytes::<1>();
+        let got = MHash::new().chain_iter([&a[..], &b[..], &b[..0], &c[..]].into_iter()).finalize();
+        check!(eq_bytes(&got, &sp::hash(&[&a, &b, &c])), "chain_iter == hash of the concatenation of all parts");
+        cover!(true, "reached");
     }
 }
